@@ -244,6 +244,8 @@ def parse_rvalue(s):
 def parse_targets(s):
     """`[return: bb2, unwind: bb8]` / `[success: bb1, unwind continue]` / `[0: bb6, otherwise: bb2]`"""
     out = {}
+    if s.strip() == "[]":
+        return out
     for part in split_top(s.strip()[1:-1]):
         if ":" in part:
             k, v = part.split(":", 1)
@@ -289,6 +291,10 @@ def parse_terminator(s):
     m = re.fullmatch(r"falseUnwind -> \[real: (bb\d+), .*\]", s)
     if m:
         return ("goto", m.group(1))
+    # diverging call: `PLACE = CALLEE(ARGS) -> unwind continue` (no return edge)
+    m = re.fullmatch(r"(.*\)) -> unwind (?:continue|unreachable|terminate.*)", s, re.S)
+    if m:
+        s = m.group(1) + " -> []"
     # call: `PLACE = CALLEE(ARGS) -> [return: bbN, unwind: ...]`  (diverging calls have no return target)
     k = s.rfind(" -> [")
     if k >= 0 and s.endswith("]"):
